@@ -254,6 +254,9 @@ func (s *sequenceAllocator) nextSequenceGreaterThan(ctx context.Context, existin
 	numReleasedBatch, err = s._releaseCurrentBatch(ctx)
 	if err != nil {
 		base.InfofCtx(ctx, base.KeyCache, "Unable to release current batch during nextSequenceGreaterThan for existing sequence %d. Will be handled by skipped sequence handling. %v", existingSequence, err)
+		// The remainder of the current batch is below targetSequence, so it must not be assigned by the
+		// _nextSequence call below: abandon it to skipped sequence handling.
+		s.last = s.max
 	}
 	releasedSequenceCount += numReleasedBatch
 
